@@ -99,10 +99,11 @@ var tmplCache = map[string]*device.Device{}
 // fakeServer: with faults > 0 the environment may answer up to that many calls with an error (every placement is
 // explored: an explicit choice at each call while budget is left), or die for good (all later calls fail).
 type fakeServer struct {
-	leds   []openrgb.LED
-	faults int
-	failed int
-	dead   bool
+	leds    []openrgb.LED
+	faults  int
+	failed  int
+	dead    bool
+	noMatch bool
 }
 
 func (f *fakeServer) fault(what string) bool {
@@ -124,9 +125,21 @@ func (f *fakeServer) fault(what string) bool {
 	return false
 }
 
-func (f *fakeServer) ControllerCount() (int, error) { return 1, nil }
+func (f *fakeServer) ControllerCount() (int, error) {
+	if f.fault("count") {
+		return 0, fmt.Errorf("fake openrgb: connection lost")
+	}
+	return 1, nil
+}
 func (f *fakeServer) Controller(i int) (openrgb.Device, error) {
-	return openrgb.Device{Type: 5, Name: "Fake Keyboard", Location: "HID: /dev/hidraw0", LEDs: f.leds, Colors: make([]openrgb.Color, len(f.leds))}, nil
+	if f.fault("controller") {
+		return openrgb.Device{}, fmt.Errorf("fake openrgb: connection lost")
+	}
+	loc := "HID: /dev/hidraw0"
+	if f.noMatch {
+		loc = "HID: /dev/hidraw9" // some other keyboard: the device's controller is never found
+	}
+	return openrgb.Device{Type: 5, Name: "Fake Keyboard", Location: loc, LEDs: f.leds, Colors: make([]openrgb.Color, len(f.leds))}, nil
 }
 func (f *fakeServer) UpdateLEDs(i int, colors []openrgb.Color) error {
 	if f.fault("update") {
@@ -156,6 +169,7 @@ type scen struct {
 	events        []*input.InputEvent
 	two           bool
 	stall         bool // the whole process is stalled (suspend, CPU starvation) for 6 s of virtual time at an arbitrary moment
+	noMatch       bool // the LED server knows no controller for this device
 	pace          int  // the feeder sleeps this many times before every event and before closing the stream (lets LED frames happen in between)
 	faults        int  // number of OpenRGB calls the environment may fail (every placement)
 }
@@ -175,7 +189,7 @@ func drain(out chan midi.Event, tag string) {
 
 func (sc scen) run() {
 	if sc.rgb {
-		srv := &fakeServer{faults: sc.faults}
+		srv := &fakeServer{faults: sc.faults, noMatch: sc.noMatch}
 		for _, n := range []string{"Key: A", "Key: S", "Key: Escape", "Key: F2", "Key: Q"} {
 			srv.leds = append(srv.leds, openrgb.LED{Name: n})
 		}
@@ -357,6 +371,7 @@ func scenarios(tier string) []scen {
 	// the process does not get the CPU for several seconds (system suspend, starvation) at an arbitrary moment
 	s = append(s, scen{name: "openrgb connected, the process stalls for 6 s at some point", events: two[:1], rgb: true, stall: true, pace: 1, dBound: -1},
 		scen{name: "no-openrgb, the process stalls for 6 s at some point", events: two[:1], stall: true, pace: 1, dBound: -1})
+	s = append(s, scen{name: "openrgb connected but no controller matches the device", events: two[:1], rgb: true, noMatch: true, pace: 1, dBound: -1})
 	// environment faults: the LED server refuses / drops up to two calls, or goes away for good, at every possible call
 	s = append(s, scen{name: "openrgb with faults (<=2 failing calls or server gone), press + release", events: []*input.InputEvent{key("KEY_A", 1), key("KEY_A", 0)}, rgb: true, faults: 2, pace: 2, dBound: -2})
 	if tier == "thorough" {
